@@ -45,9 +45,13 @@ class Fam:
         self.doc = doc
         self.gen = gen
 
-    def run(self, ctx, tier, seed):
+    def run(self, ctx, tier, seed, pid=None):
         repo = ctx.repo or factsmod.REPO
-        ws, exhaustive = self.gen(tier, seed)
+        import inspect
+        if 'pid' in inspect.signature(self.gen).parameters:
+            ws, exhaustive = self.gen(tier, seed, pid=pid)
+        else:
+            ws, exhaustive = self.gen(tier, seed)
         res = check_witnesses(self.id, ws, repo)
         floor = self._floor.get(tier, 0) if isinstance(self._floor, dict) else self._floor
         viol = []
@@ -265,5 +269,5 @@ def run_families(ctx, pid, tier, seed):
     from . import families  # noqa: registers
     for fid, fam in sorted(FAMILIES.items()):
         if pid in (fam.props if tier == 'thorough' else fam.quick_props):
-            out.append((fid, fam.run(ctx, tier, seed)))
+            out.append((fid, fam.run(ctx, tier, seed, pid)))
     return out
